@@ -601,7 +601,35 @@ def check_geom(o):
     return bad
 
 
-CHECKS = {"apply": check_apply, "vec": check_vec, "vmask": check_mask, "tmask": check_mask, "geom": check_geom}
+def check_mask_none(o):
+    """a vertex mask that keeps no whole triangle: refused or answered, the receiver (and the caller's mask) stay what they were -
+    and a request that IS answerable afterwards is answered as if nothing had happened"""
+    bad = []
+    c = o["case"]
+    mesh, attr = _mesh(c["cls"], o["m"])
+    _warm(mesh)
+    s0 = state(mesh)
+    mask = np.array(c["mask"], dtype=bool)
+    keep = mask.copy()
+    try:
+        r = mesh.from_mask(mask)
+        if r.n_points and len(r.trilist) == 0 and r.n_points > 0:
+            bad.append(("masking away every triangle returned a mesh with points but no triangle", {"n_points": int(r.n_points)}, None))
+    except Exception:
+        pass
+    d = same(s0, state(mesh))
+    if d:
+        bad.append(("a mask that keeps no whole triangle (refused or not) changed the receiver: " + d, {"mask": c["mask"]}, None))
+    if not np.array_equal(mask, keep):
+        bad.append(("masking modified the caller's mask", {}, None))
+    if not bad:
+        full = mesh.from_mask(np.ones(len(mask), dtype=bool))
+        if not np.array_equal(full.points, mesh.points) or not np.array_equal(np.asarray(full.trilist, dtype=int), np.asarray(mesh.trilist, dtype=int)):
+            bad.append(("after a mask that keeps no triangle, the all-true mask no longer returns the mesh", {}, None))
+    return bad
+
+
+CHECKS = {"apply": check_apply, "vec": check_vec, "vmask": check_mask, "tmask": check_mask, "geom": check_geom, "vmask_none": check_mask_none}
 
 
 def run_case(o):
